@@ -67,6 +67,10 @@ type rule struct {
 	// Namespace of the composed resource ("" = cluster scoped). Two pipeline rules of one kind may share the
 	// fixed name "fixed-same" in different namespaces.
 	Namespace string `json:"namespace,omitempty"`
+	// NameParam (pipeline): once the user has set spec.params.<NameParam> the function returns an explicit
+	// metadata.name ("named-<rule>") for this resource - e.g. a name derived from an XR field the user just
+	// edited. An existing composed resource keeps the name it has.
+	NameParam string `json:"nameParam,omitempty"`
 	// StaleAnn: the desired resource / template base already carries a crossplane.io/composition-resource-name
 	// annotation naming ANOTHER resource of the composition (a pasted exported manifest, a function cloning an
 	// observed sibling). Rendering overwrites it.
@@ -135,6 +139,9 @@ func genScenario() *rapid.Generator[scenario] {
 				if rapid.Bool().Draw(t, "drops") {
 					r.DropParam = fmt.Sprintf("p%d", rapid.IntRange(0, 2).Draw(t, "dropparam"))
 				}
+				if r.FixedName == "" && rapid.IntRange(0, 3).Draw(t, "nameparam") == 0 {
+					r.NameParam = fmt.Sprintf("p%d", rapid.IntRange(0, 2).Draw(t, "nameparamof"))
+				}
 			} else {
 				if rapid.Bool().Draw(t, "haspatch") {
 					r.Param = fmt.Sprintf("p%d", rapid.IntRange(0, 2).Draw(t, "param"))
@@ -160,7 +167,7 @@ func genEnvSteps(sc scenario) *rapid.Generator[[]envStep] {
 	seen := map[string]bool{}
 	for _, r := range sc.Rules {
 		menu = append(menu, envStep{Ready: r.Name})
-		for _, p := range []string{r.Param, r.DropParam} {
+		for _, p := range []string{r.Param, r.DropParam, r.NameParam} {
 			if p != "" && !seen[p] {
 				seen[p] = true
 				menu = append(menu, envStep{Param: p}, envStep{Param: p})
@@ -227,6 +234,9 @@ func (sc scenario) runner() composite.FunctionRunner {
 			}
 			if r.StaleAnn != "" {
 				md["annotations"] = map[string]any{annName: r.StaleAnn}
+			}
+			if _, named := xrParams[r.NameParam]; named && r.NameParam != "" {
+				md["name"] = "named-" + r.Name
 			}
 			s, err := structpb.NewStruct(map[string]any{
 				"apiVersion": "example.org/v1", "kind": r.Kind, "metadata": md,
